@@ -20,7 +20,7 @@ Inductive eui := EUI48 (v : Z) | EUI64 (v : Z).
 (* EUI.eui64(): 11:22:33:44:55:66 -> 11:22:33:FF:FE:44:55:66 ; a 64-bit EUI is unchanged *)
 Definition eui48_to_64 (v : Z) : Z :=
   Z.lor (Z.lor (Z.shiftl (Z.shiftr v 24) 40) 0xFFFE000000) (Z.land v 0xFFFFFF).
-Definition eui64_value (e : eui) : Z :=
+Definition eui64_int (e : eui) : Z :=
   match e with EUI48 v => eui48_to_64 v | EUI64 v => v end.
 
 (* netaddr.IPAddress(int): the version is detected from the magnitude *)
@@ -77,7 +77,7 @@ Definition get_ipv6_addr_by_EUI64 (is_str v4_loose v4_strict : bool) (mac : lres
       match net with
       | LExn e => Exn (handle e)
       | LOk first =>
-        match ip_address_of_int (gen_eui64_combine first (eui64_value m)) with
+        match ip_address_of_int (gen_eui64_combine first (eui64_int m)) with
         | LExn e => Exn (handle e)
         | LOk r => Ok r
         end
